@@ -551,6 +551,30 @@ def unary(ctx, cname):
                     oks, singles = call(lambda: [build(cname, [kk]).interp(0.3) for kk in ks])
                     if oks:
                         compare(ctx, cid, cname + '.interp', P, res, singles, n)
+    if cname in ('SO3', 'SE3', 'SO2', 'SE2'):
+        # several poses interpolated from an explicit start pose at one s: element i is what pose i gives alone - also when start and pose are more
+        # than half a turn apart by the short way round (quaternions in opposite hemispheres)
+        import spatialmath as sm
+        C_ = getattr(sm, cname)
+        three = cname in ('SO3', 'SE3')
+        rot = (lambda a_: ref.rotx(a_)) if three else (lambda a_: ref.rot2(a_))
+        wrap = (lambda R_, j_: ref.rt(R_, ((1.0 + j_, -2.0, 0.5) if three else (1.0 + j_, -2.0)))) if cname[:2] == 'SE' else (lambda R_, j_: R_)
+        for a0, angs in ((-2.0, [2.0, 0.3, -2.5]), (0.4, [0.5, 3.0, -2.9]), (3.0, [-3.0, 2.9])):
+            for s_ in (0.25, 0.5, 0.8):
+                cid = 'C09/%s/interp/start=%g/M=%d/s=%g' % (cname, a0, len(angs), s_)
+                if not ctx.want(cid):
+                    continue
+                ctx.case(cid, key=cid)
+                P = dict(cls=cname, acc='interp', M=len(angs), mode='Mx1', start=a0)
+                mkX = lambda: C_([wrap(rot(a_), j_) for j_, a_ in enumerate(angs)])
+                mk0 = lambda: C_(wrap(rot(a0), 7))
+                ok, res = call(lambda: mkX().interp(s_, start=mk0()))
+                if not ok:
+                    ctx.fail(cid, cname + '.interp', 'raises:' + type(res).__name__, P, 'interp of %d poses from a start pose raised %r' % (len(angs), res))
+                    continue
+                oks, singles = call(lambda: [C_(wrap(rot(a_), j_)).interp(s_, start=mk0()) for j_, a_ in enumerate(angs)])
+                if oks:
+                    compare(ctx, cid, cname + '.interp', P, res, singles, len(angs))
     if cname in ('Twist3', 'Twist2'):
         # one twist, a vector of joint values, either unit: element i is what the scalar call with value i gives (whatever a unit means for a
         # prismatic joint, it means the same in both spellings)
